@@ -46,6 +46,7 @@ func runC01(c *Ctx) {
 	scanTotal(c)
 	errorListOnce(c)
 	valueWithVariables(c)
+	c01Small(c)
 }
 
 // c01SelectionsPrivate: the merged sub-selection of a collected field is a slice private to that CollectFields call.  Fields
